@@ -35,6 +35,18 @@ def bisect (p : Nat → Bool) : Nat → Nat → Nat → Nat
 def wkbDepth (arc : WKB.ArcOracle) (bs : List UInt8) : Nat :=
   bisect (wkbRunsOut arc bs) 64 0 (bs.length / 5 + 1)
 
+/-- the witness of `C11.WKB.depth_unbounded` as explicit bytes: `d` × (`01 07000000 01000000`) then POINT (1 2)
+(`= WKB.nestBytes d`, theorem `C11.wkbNest_eq`) -/
+def wkbNest : Nat → List UInt8
+  | 0 => [1, 1, 0, 0, 0, 0, 0, 0, 0, 0, 0, 0xf0, 0x3f, 0, 0, 0, 0, 0, 0, 0, 0x40]
+  | d + 1 => [1, 7, 0, 0, 0, 1, 0, 0, 0] ++ wkbNest d
+
+/-- the witness of `C11.WKB.alloc_superlinear`: `k` nested collections, level `j` claiming `j − 1` elements
+(`= WKB.over k`, theorem `C11.wkbOver_eq`) -/
+def wkbOver : Nat → List UInt8
+  | 0 => []
+  | k + 1 => [1, 7, 0, 0, 0] ++ (WKB.putU32 .le k ++ wkbOver k)
+
 /-! ### WKT -/
 open WKT
 
